@@ -9,6 +9,7 @@ from vlib.runner import Eval
 
 ID = "C18"
 LEVEL = "exploration"
+CGF_RUNS = {"thorough": 6000}  # coverage-guided stage (vlib/cgf.py): libFuzzer executions per worker, 16 workers
 RULE = (
     "Ranges (min <= max, min = max, 1-16 hex digits, upper/lower case, with/without 0x on either bound, YAML strings) x listings of 3-14 instructions mixing direct call/jmp "
     "with targets at min-1, min, max, max+1, far inside/outside, other digit counts, leading zeros, 0x-prefixed and <sym>-annotated spellings; indirect call/jmp (*%reg, "
